@@ -18,9 +18,23 @@ def extra(chk, results, scs):
         chk.inconclusive.append('a lookup needed %d key comparisons (bound %d) although the red-black invariants hold' % (worst, bound))
 
 
+def extra2(chk, results, scs):
+    extra(chk, results, scs)
+    # contended writes: after a writer had to wait for a reader (WAITER set, park/unpark) the bin must return to lock_state 0,
+    # otherwise every later lookup falls back to the linear list
+    from ..concheck import ConcScenario
+    from ._conc import run_conc, report
+    tree = list(range(10))
+    cs = [ConcScenario('tree/contended-insert', hasher='samebin', capacity=40, prefill=tree, threads=[[('insert', 10)], [('get', 3)]], preemptions=2),
+          ConcScenario('tree/contended-remove', hasher='const', capacity=40, prefill=tree, threads=[[('remove', 4)], [('get', 7)]], preemptions=2)]
+    res = run_conc(cs)
+    chk.bounds['contended'] = '1 restructuring writer against 1 reader of the same tree bin, <= 2 preemptions: tree invariants and lock_state 0 at the end'
+    report(chk, 'C06', res, cs, describe='tree invariants hold and the reader/writer lock word is back to 0 after contended restructuring')
+
+
 def run(tier: str) -> int:
     return run_property('C06', tier, 'model_checking',
                         {'bins': 'tree bins of 9-11 (thorough: 9-14) colliding keys in a 64-bin table, equal hashes and same-bin/different-hash; built by treeification, by inserts, and by resize splits',
                          'operations': 'every pair (thorough: triple) of insert/remove with symbolic keys over stored and absent keys; shrink to and below the untreeify threshold',
                          'oracle': 'after every step: BST order on (hash,key) via solver, root black, no red-red, equal black heights, parent/child/prev/next consistency, tree and traversal list hold the same nodes, lock_state 0, treeify only in tables >= 64'},
-                        ['the tree-bin reader/writer lock is not exercised (single thread)'], extra=extra)
+                        ['the tree-bin reader/writer lock is not exercised (single thread)'], extra=extra2)
